@@ -268,8 +268,9 @@ func Check(c Case) *kit.Violation {
 			return kit.Failf("%s: Read(%d) reported %d bytes (%s)", what, n, k, hist(i))
 		}
 		if closed {
-			// a zero-length read that reports (0, nil) hands out nothing stale: only reads that ask for bytes must fail
-			if wrappedAtClose && (k != 0 || (rerr == nil && n > 0)) {
+			// every read after close fails, a zero-length one included (the closed state is checked before anything else, as
+			// net/http's bodies and os.File do)
+			if wrappedAtClose && (k != 0 || rerr == nil) {
 				return kit.Failf("%s: read after close returned %d bytes, err=%v; it must fail (%s)", what, k, rerr, hist(i))
 			}
 			return nil
